@@ -77,19 +77,49 @@ FIXED_READINGS = {
     "ok T:21.5 /0.0 B:20.1 /0.0": {"T": 21.5, "B": 20.1},
     "ok T:22.0 /0.0": {"T": 22.0},
 }
-_DYN = [re.compile(r"^(?:ok )?T:(?P<T>-?\d+\.\d) /0\.0 B:(?P<B>-?\d+\.\d) /0\.0$"),
-        re.compile(r"^(?:ok )?X:(?P<X>-?\d+\.\d) Y:(?P<Y>-?\d+\.\d) Z:(?P<Z>-?\d+\.\d) E:(?P<E>-?\d+\.\d) Count X:\d+ Y:\d+ Z:\d+$")]
+_DYN = [re.compile(r"^(?:ok )?T:(?P<T>-?\d+\.\d+) /0\.0 B:(?P<B>-?\d+\.\d+) /0\.0$"),
+        re.compile(r"^(?:ok )?X:(?P<X>-?\d+\.\d+) Y:(?P<Y>-?\d+\.\d+) Z:(?P<Z>-?\d+\.\d+) E:(?P<E>-?\d+\.\d+) Count X:\d+ Y:\d+ Z:\d+$")]
+
+
+# status / probe reports of Grbl-style controllers, in the layouts `status_report` writes (the harness's own grammar):
+#   Grbl 1.1            <State|MPos:x,y,z|FS:f,s|WCO:..|Ov:..>     fields separated by `|`
+#   Grbl 0.9 / Smoothie <State,MPos:x,y,z,WPos:x,y,z,Buf:n,RX:n>   the older layout, everything separated by `,`
+#   probe               [PRB:x,y,z:1]
+_NUM = r"-?\d+\.\d+"
+_RX_STATUS = re.compile(r"^<[A-Za-z]+(?::\d)?[|,][^<>]*>$")
+_RX_POS = re.compile(rf"(?:MPos|WPos):({_NUM}),({_NUM}),({_NUM})(?![\d.])")
+_RX_FS = re.compile(r"[|,]FS:(\d+),(\d+)(?=[|>])")
+_RX_F = re.compile(r"[|,]F:(\d+)(?=[|,>])")
+_RX_PRB = re.compile(rf"^\[PRB:({_NUM}),({_NUM}),({_NUM}):[01]\]$")
+GRBL_STATES = ["Idle", "Idle", "Run", "Jog", "Home", "Check", "Alarm", "Hold:0", "Hold:1", "Door:0", "Queue"]
 
 
 def readings_of(text: str) -> dict:
     """Readings a scripted line reports (first occurrence of a key within the line); lines are either from the
-    fixed vocabulary or built by `report_line` - the oracle never re-implements the writer's parser."""
+    fixed vocabulary or built by `report_line` / `status_report` - the oracle never re-implements the writer's
+    parser, it recognises the lines the generator writes."""
     if text in FIXED_READINGS:
         return FIXED_READINGS[text]
     for rx in _DYN:
         m = rx.match(text)
         if m:
             return {k: float(v) for k, v in m.groupdict().items()}
+    m = _RX_PRB.match(text)
+    if m:
+        return dict(zip("XYZ", map(float, m.groups())))
+    if _RX_STATUS.match(text):
+        out = {}
+        m = _RX_POS.search(text)      # the first position group of the report counts
+        if m:
+            out.update(zip("XYZ", map(float, m.groups())))
+        m = _RX_FS.search(text)
+        if m:
+            out["F"], out["S"] = float(m.group(1)), float(m.group(2))
+        else:
+            m = _RX_F.search(text)
+            if m:
+                out["F"] = float(m.group(1))
+        return out
     return {}
 
 
@@ -99,6 +129,67 @@ def report_line(rng, ok: bool) -> str:
         return f"{pre}T:{rng.randint(150, 2500) / 10:.1f} /0.0 B:{rng.randint(150, 1100) / 10:.1f} /0.0"
     v = [rng.randint(-500, 500) / 10 for _ in range(4)]
     return f"{pre}X:{v[0]:.1f} Y:{v[1]:.1f} Z:{v[2]:.1f} E:{v[3]:.1f} Count X:{rng.randint(0, 9)} Y:7 Z:8"
+
+
+def status_report(rng, layout=None) -> str:
+    """A position / status report with fresh values in one of the layouts controllers use (none of them contains
+    "T:", so each is an ordinary status line for printcore and for the model): Grbl 1.1 (`|` between the fields),
+    the older comma-separated layout of Grbl 0.9 / Smoothieware, a probe report, a Marlin M114 answer.  The readings
+    the line is meant to carry are fixed here, from the abstract values; `readings_of` must read the same back."""
+    layout = layout or rng.choice(["pipes", "pipes", "commas", "commas", "probe", "m114"])
+    dec = rng.choice([1, 2, 3, 3, 4])
+
+    def coords():
+        return [f"{rng.randint(-300000, 300000) / 1000:.{dec}f}" for _ in range(3)]
+
+    if layout == "m114":
+        v = coords() + [f"{rng.randint(0, 90000) / 1000:.{dec}f}"]
+        line = f"X:{v[0]} Y:{v[1]} Z:{v[2]} E:{v[3]} Count X:{rng.randint(0, 9)} Y:7 Z:8"
+        want = dict(zip("XYZE", map(float, v)))
+    elif layout == "probe":
+        v = coords()
+        line = f"[PRB:{','.join(v)}:{rng.choice('01')}]"
+        want = dict(zip("XYZ", map(float, v)))
+    else:
+        state = rng.choice(GRBL_STATES)
+        first, second = coords(), coords()
+        names = rng.choice([("MPos", "WPos"), ("MPos", "WPos"), ("WPos", "MPos"), ("MPos", None), ("WPos", None)])
+        want = dict(zip("XYZ", map(float, first)))
+        if layout == "pipes":
+            fields = [f"{names[0]}:{','.join(first)}"]
+            r = rng.random()
+            if r < 0.5:
+                f, s = rng.randint(0, 6000), rng.choice([0, 0, 1000, 12000])
+                fields.append(f"FS:{f},{s}")
+                want["F"], want["S"] = float(f), float(s)
+            elif r < 0.7:
+                f = rng.randint(0, 6000)
+                fields.append(f"F:{f}")
+                want["F"] = float(f)
+            if names[1] and rng.random() < 0.3:
+                fields.append(f"{names[1]}:{','.join(second)}")     # a second position group: the first one counts
+            if rng.random() < 0.4:
+                fields.append("WCO:" + ",".join(coords()))
+            if rng.random() < 0.3:
+                fields.append("Ov:100,100,100")
+            if rng.random() < 0.3:
+                fields.append(f"Bf:{rng.randint(0, 15)},{rng.randint(0, 128)}")
+            if rng.random() < 0.2:
+                fields.append("Pn:" + rng.choice(["X", "XYZ", "P", "D"]))
+            line = "<" + "|".join([state] + fields) + ">"
+        else:
+            state = state.partition(":")[0]      # the older firmwares have no sub-states
+            fields = [f"{names[0]}:{','.join(first)}"]
+            if names[1]:
+                fields.append(f"{names[1]}:{','.join(second)}")
+            if rng.random() < 0.3:
+                fields += [f"Buf:{rng.randint(0, 17)}", f"RX:{rng.randint(0, 127)}"]
+            if rng.random() < 0.15:
+                fields.append(f"Ln:{rng.randint(0, 999)}")
+            line = "<" + ",".join([state] + fields) + ">"
+    if readings_of(line) != want or "T:" in line:
+        raise core.Infra(f"status_report wrote {line!r} for the readings {want!r}, readings_of reads {readings_of(line)!r}")
+    return line
 
 
 # ------------------------------------------------------------------ generation
@@ -136,7 +227,8 @@ def gen_script(rng, handshake: bool, allow_temp: bool, p_err: float):
             lines.append((line, False))
         else:
             pre += "s"
-            lines.append((rng.choice(STATUS), False))
+            # a status / position report with fresh values in one of the layouts controllers use, or a fixed line
+            lines.append((status_report(rng) if rng.random() < 0.4 else rng.choice(STATUS), False))
     if rng.random() < p_err:
         term = "b"
         lines.append((rng.choice(BAD) if rng.random() < 0.4 else error_line(rng), True))
@@ -968,6 +1060,23 @@ def grbl_case():
             "stmts": ["G1 X10 Y5 F600\n", "G1 X2 Y3\n"], "ops": ops}
 
 
+def reports_case(kind="serial"):
+    """Move, query, move, query - the way a caller follows the machine: every query is answered with a status report
+    in another layout (Grbl 1.1 `|` fields; the older comma-separated layout of Grbl 0.9 / Smoothieware; a probe
+    report) and then `ok`; the reading must be there when the write() of the query returns.  Part of the corpus."""
+    ok = [("ok", False)]
+    reports = ["<Idle|MPos:10.000,5.000,0.000|FS:0,0|WCO:0.000,0.000,0.000>",
+               "<Idle,MPos:2.000,3.000,-1.500,WPos:-8.000,-2.000,-1.500>",
+               "[PRB:2.000,3.000,-4.125:1]"]
+    ops = [["start"]] + [["D", "-", "o", ok], ["R"]] * 3
+    stmts = []
+    for k, (move, query) in enumerate((("G1 X10 Y5 F600", "?"), ("G1 X2 Y3 Z-1.5", "$?"), ("G38.2 Z-10 F50", "M114"))):
+        stmts += [move + "\n", query + "\n"]
+        ops += [["D", "-", "o", ok], ["R"], ["D", "s", "o", [(reports[k], False), ("ok", False)]], ["R"], ["R"]]
+    ops += [["D", "-", "o", ok], ["R"], ["settle"]]
+    return {"kind": kind, "flavour": "clean", "n": len(stmts), "disc": True, "stmts": stmts, "ops": ops}
+
+
 def witness_surplus():
     """error:20 + ok for statement 0; the ok is read after the caller entered write(1)."""
     return _witness(surplus_case(), absorb_surplus,
@@ -981,7 +1090,8 @@ WITNESSES = {FID_BACKLOG: witness_backlog, FID_SURPLUS: witness_surplus}
 # ------------------------------------------------------------------ entry points
 def run(R: core.Run):
     R.rule = ("release scripts: 1-5 statements x per-command reply scripts (0-3 status/T: lines, some with 'ok' inside a "
-              "word, then ok-variant or error/alarm/!! terminal - keyword in any case, bare or followed by text) x random interleaving of device consumption and line "
+              "word, 4 in 10 status lines a position / status report with fresh values - Grbl 1.1 '<..|MPos:..|FS:..>', the "
+              "comma-separated layout of Grbl 0.9 / Smoothieware, '[PRB:..]', Marlin M114 -, then ok-variant or error/alarm/!! terminal - keyword in any case, bare or followed by text) x random interleaving of device consumption and line "
               "release x optional connection loss x optional disconnect(wait=True) x (socket) reply lines arriving in two segments "
               "more than the read time-out apart x handshake (line numbers: silent device, two "
               "M110; no line numbers: 'Grbl ...' greeting first, the probe's ok released later like any line); gated scripts: the caller starts each "
@@ -991,7 +1101,8 @@ def run(R: core.Run):
         "single caller thread (connect; writes; disconnect), as GCodeBuilder uses a writer; a second thread only in sub-harness C",
         "the device answers every received command with exactly one terminal reply (ok... or error.../alarm.../!!...), "
         "may push surplus ok / unsolicited error lines at any time (scripted as separate `X` lines), "
-        "reports readings only in the scripted formats (T:/B: temperature and X/Y/Z/E position reports, fixed vocabulary), "
+        "reports readings only in the scripted formats (T:/B: temperature, Marlin X/Y/Z/E position reports, Grbl status "
+        "reports with three-axis MPos/WPos groups in the `|` and in the older `,` layout, probe reports, fixed vocabulary), "
         "and never sends 'start', 'Resend:'/'rs' or 'DEBUG_' lines; it greets at most once, with 'Grbl <version> ...', "
         "as the first line after the port is opened (then: no line numbers, no M110)",
         "after a 'Grbl' greeting the probe's reply reaches the host after startprint() has run (it is behind the greeting "
@@ -1020,7 +1131,7 @@ def run(R: core.Run):
     n_gated = max(8, n // 4)
     n_hit = max(2, n // 14)
     n_grbl = max(4, n // 8)
-    corpus = [backlog_case(), surplus_case(), grbl_case()]
+    corpus = [backlog_case(), surplus_case(), grbl_case(), reports_case()]
     cases = [gen_case(R.rng) for _ in range(max(4, n - n_sock - n_back - n_gated - n_hit - n_grbl))]
     cases += [gen_case(R.rng, flavour="backlog") for _ in range(n_back)]
     # no-line-number handshakes (`Grbl …` greeting): mostly clean, some lost / refused / with probes piled up
